@@ -81,6 +81,18 @@ def generate(seed, tier="quick"):
                 events.append({"t": "cmp", "eid": f"e{eid_n}", "site": f"s{sid_n}", "vals": [wrap(rng, ext_value(rng))], "style": rng.choice(["assert", "rec"])})
             tests.append({"name": f"test_t{fi}{ti}", "events": events})
         files.append({"name": f"test_{'abc'[fi]}.py", "header": {"imports": "star"}, "sites": sites, "tests": tests})
+    mrng = sub(seed, "module-outsource")
+    if mrng.random() < 0.3:
+        # data outsourced while the module is imported (a module-level constant): collection happens after the session start, so the
+        # "-new" file written at import time belongs to this session like the ones written by running tests
+        f = mrng.choice(files)
+        v = ext_value(mrng)
+        sid_n += 1
+        eid_n += 1
+        f["header"]["pre"] = [f"MD = {V.expr(v)}"]
+        f["module_ext"] = [v]
+        f["sites"][f"s{sid_n}"] = {"op": "eq", "place": "direct", "arg": None, "prev": None}
+        f["tests"].append({"name": f"test_md{sid_n}", "events": [{"t": "cmp", "eid": f"e{eid_n}", "site": f"s{sid_n}", "var": "MD", "vals": [v], "style": mrng.choice(["assert", "rec"])}]})
     prog = {"files": files, "pyproject": None}
     srng = sub(seed, "steps")
     steps = [{"k": "session", "flags": srng.choice(["create", "create,fix", "create", "create,fix,trim,update"])}]
@@ -203,7 +215,7 @@ def execute(case, ctx):
         rng = random.Random(step.get("seed", 0))
         try:
             if k == "edit_data":
-                evs = [e for f in prog["files"] for t in f["tests"] for e in t["events"] if e.get("t") == "cmp"]
+                evs = [e for f in prog["files"] for t in f["tests"] for e in t["events"] if e.get("t") == "cmp" and "var" not in e]
                 if evs:
                     for e in rng.sample(evs, min(len(evs), rng.randint(1, 2))):
                         e["vals"] = [wrap(rng, ext_value(rng))]
@@ -270,6 +282,13 @@ def execute(case, ctx):
         ran_this = {}
         took_part = set()
         asserts_ran = {}
+        for f in prog["files"]:
+            for v in f.get("module_ext", []):
+                # outsourced when the module was imported (collection), whichever tests were selected
+                h, sfx, data = ext_key(v)
+                ran_this[(h, sfx)] = data
+                ever[(h, sfx)] = data
+                ctx.count("probe_data_outsourced_at_import_time")
         for f in prog["files"]:
             for t in f["tests"]:
                 if selected is not None and selected not in t["name"]:
